@@ -606,3 +606,33 @@ def s6_fork(ctx, rid, fx, cls, sink, subs):
             ctx.ob(rid, fx.rel, cls, f"fork:{s}.valid=>{o}.ready", ok,
                    "" if ok else f"{s}.valid = {B.show(fv)} does not entail {o}.ready: {s} is pushed in cycles in which the "
                                  f"sink token is not accepted (duplicate push while {o} stalls)", line)
+
+
+def packetfifo_geometry(ctx, rid):
+    """PacketFIFO: the payload store has the promised depth and the payload layout; the parameter store holds one entry more than
+    requested (dequeue current while enqueuing next) and defaults to the payload depth.  A payload store that is shallower than a
+    packet can never take the beat that carries `last`, while the parameter store -- which drives source.valid -- is still empty:
+    both sides wait for ever."""
+    fx = fx_of(ctx, PACKET, "PacketFIFO")
+    by = {i.name: i for i in fx.insts if i.call is not None}
+    pay, par = by.get("self.payload_fifo"), by.get("self.param_fifo")
+    ok = pay is not None and [norm(a) for a in pay.call.args] == ["payload_description", "payload_depth", "buffered"]
+    ctx.ob(rid, PACKET, "PacketFIFO", "payload store = SyncFIFO(payload description, payload_depth, buffered)", ok,
+           "" if ok else f"{[norm(a) for a in pay.call.args] if pay else None}: a packet longer than the store dead-locks the FIFO (last beat "
+                         f"refused, nothing to release)", pay.node if pay else 0)
+    ok = par is not None and [norm(a) for a in par.call.args] == ["param_description", "param_depth", "buffered"]
+    ctx.ob(rid, PACKET, "PacketFIFO", "parameter store = SyncFIFO(param description, param_depth, buffered)", ok,
+           "" if ok else f"{[norm(a) for a in par.call.args] if par else None}", par.node if par else 0)
+    m = ctx.mod(PACKET)
+    init = m.method("PacketFIFO", "__init__")
+    asg = sorted(((norm(n.targets[0]), norm(n.value), n) for n in ast.walk(init) if isinstance(n, ast.Assign) and len(n.targets) == 1),
+                 key=lambda x: (x[2].lineno, x[2].col_offset))
+    d = {}
+    for t, v, n in asg:
+        d.setdefault(t, []).append(v)
+    ok = d.get("param_depth") == ["payload_depth", "param_depth + 1"] or d.get("param_depth") == ["payload_depth", "1 + param_depth"]
+    ctx.ob(rid, PACKET, "PacketFIFO", "param_depth defaults to payload_depth, then + 1", ok, "" if ok else f"param_depth <- {d.get('param_depth')}", init)
+    ok = d.get("payload_description") == ["stream.EndpointDescription(payload_layout=payload_layout)"] and \
+        d.get("param_description") == ["stream.EndpointDescription(param_layout=param_layout)"]
+    ctx.ob(rid, PACKET, "PacketFIFO", "each store carries its own layout", ok,
+           "" if ok else f"{d.get('payload_description')} / {d.get('param_description')}", init)
